@@ -125,6 +125,11 @@ def check_scheduled(W, B, n_batches_kind, seed):
             return {"what": "n_batches differs from the number of global batches of the budget", "observed": w.n_batches, "expected": n_batches,
                     "input": dict(W=W, B=B, kind=n_batches_kind)}
         workers.append(w)
+    if W == 1:
+        # main-process use: the public hook without a DataLoader worker (get_worker_info() is None) = one single worker
+        w0 = copy.deepcopy(base)
+        w0.worker_init_fn(0, batch_size=B, **kw)
+        workers = [w0]
     for b in range(n_batches):
         w = workers[b % W]
         exp = w.schedule.get_value(b, n_batches)
